@@ -714,6 +714,8 @@ func tagFor(a bAct, exp [][]bPkt, got []bPkt, conn string) string {
 	switch {
 	case a.A == "subrec" || a.A == "suback":
 		return "C12"
+	case a.A == "stray":
+		return "C02"
 	case a.A == "refuse":
 		return "C11"
 	case a.A == "connect":
@@ -960,6 +962,16 @@ func runBehaviour(steps []bStep, auth string, maxqos int, res *Result) (result *
 			if _, err := m.c.Write(b); err != nil {
 				return &brokerMismatch{where + ": write: " + err.Error(), "C05"}
 			}
+		case "stray":
+			m := r.conns[a.C]
+			first := map[string]byte{"PUBACK": 0x40, "PUBREC": 0x50, "PUBCOMP": 0x70, "SUBACK": 0x90, "UNSUBACK": 0xb0}[a.Ty]
+			b := []byte{first, 2, byte(a.ID >> 8), byte(a.ID)}
+			if a.Ty == "SUBACK" {
+				b = []byte{first, 3, byte(a.ID >> 8), byte(a.ID), 1}
+			}
+			if _, err := m.c.Write(b); err != nil {
+				return &brokerMismatch{where + ": write: " + err.Error(), "C05"}
+			}
 		case "apipublish":
 			msg := message.NewPublishMessage()
 			msg.SetTopic([]byte(wireTopic(a.T)))
@@ -1128,6 +1140,8 @@ func actDesc(a bAct) string {
 		return fmt.Sprintf("(%s %s q%d r%v pl=%q id=%d dup=%v)", a.C, a.T, a.Q, a.R, a.Pl, a.ID, a.Dup)
 	case "pubrel":
 		return fmt.Sprintf("(%s id=%d)", a.C, a.ID)
+	case "stray":
+		return fmt.Sprintf("(%s %s id=%d)", a.C, a.Ty, a.ID)
 	case "end":
 		return fmt.Sprintf("(%s %s)", a.C, a.How)
 	case "apipublish":
